@@ -2050,7 +2050,7 @@ fn plugin_configs() -> Vec<(&'static str, Vec<PluginSpec>, bool)> {
         ("grid+lb_categorical_nodefault", vec![PluginSpec::Grid, cat_nodefault()], false),
         ("vertex_rtree", vec![PluginSpec::VertexRtree { tolerance_m: Some(60.0) }], false),
         ("grid+vertex_rtree+lb_haversine", vec![PluginSpec::Grid, PluginSpec::VertexRtree { tolerance_m: None }, PluginSpec::LbHaversine], false),
-        ("edge_rtree", vec![PluginSpec::EdgeRtree { tolerance_m: Some(80.0) }], true),
+        ("edge_rtree", vec![PluginSpec::EdgeRtree { tolerance_m: Some(1500.0) }], true),
         ("none_edge_oriented", vec![], true),
         ("grid+inject+lb_numeric", vec![PluginSpec::Grid, inj(Some(true)), PluginSpec::LbNum { col: Some(LB_COL.to_string()) }], false),
         // user-defined plugins (public trait, public `input_plugins` field): expand only SOME queries, fail on some,
